@@ -372,7 +372,7 @@ type nxCase struct {
 	Ts    string `json:"ts"`    // now | old
 	By    string `json:"by"`    // own | kA | kB | kU | none | garbage
 	Over  string `json:"over"`  // sent | otherconn | origA | junk
-	Enc   string `json:"enc"`   // ok | tmid<k> | tend<k> | sfix<k> | scut<k> | trailin | trailseq | lenshort | lenlongeof | lenzero | wtag<k> | altstr | nonminlen | intpad | settag | indef | emptyseq
+	Enc   string `json:"enc"`   // ok | tmid<k> | tend<k> | sfix<k> | scut<k> | tfrac<0..63> | sfrac<0..63> | trailin | trailseq | lenshort | lenlongeof | lenzero | wtag<k> | altstr | nonminlen | intpad | settag | indef | emptyseq
 }
 
 type nxReg struct {
@@ -553,7 +553,12 @@ func (h *nxHS) build(c nxCase, b1, b2 []byte) nxWire {
 	w := nxWire{prefix: len(der), body: der, hasFrame: true}
 	enc := c.Enc
 	num := 0
-	if l := len(enc); l > 0 && enc[l-1] >= '1' && enc[l-1] <= '5' {
+	if strings.HasPrefix(enc, "tfrac") || strings.HasPrefix(enc, "sfrac") {
+		if _, err := fmt.Sscan(enc[5:], &num); err != nil || num < 0 || num > 63 {
+			nxFatal("case %d: bad encoding %q", c.ID, c.Enc)
+		}
+		enc = enc[:5]
+	} else if l := len(enc); l > 0 && enc[l-1] >= '1' && enc[l-1] <= '5' {
 		num = int(enc[l-1] - '0')
 		enc = enc[:l-1]
 	}
@@ -585,6 +590,12 @@ func (h *nxHS) build(c nxCase, b1, b2 []byte) nxWire {
 		w.prefix = len(w.body)
 	case "scut":
 		w.body = der[:mid(num)]
+		w.closeWr, w.hasFrame = true, false
+	case "tfrac":
+		w.body = der[:len(der)*num/64]
+		w.prefix = len(w.body)
+	case "sfrac":
+		w.body = der[:len(der)*num/64]
 		w.closeWr, w.hasFrame = true, false
 	case "trailin":
 		w.body = nxCat(der, []byte{1, 2, 3, 4})
@@ -755,7 +766,7 @@ type nfMsg struct {
 type nfProg struct {
 	Node  int     `json:"node"`
 	Msgs  []nfMsg `json:"msgs"`
-	Flood int     `json:"flood"` // > 0: repeat Msgs[0] up to Flood times, stop at the first call that panics
+	Flood int     `json:"flood"` // > 0: repeat Msgs[0] up to Flood times or until a call waited for the enqueue timeout, then Msgs[1:]
 }
 
 type nfRawFrame struct {
@@ -984,67 +995,87 @@ func (r *nfRun) reserve(n *nfNode) {
 	r.closers = append(r.closers, n.release)
 }
 
+// one Send call of goroutine g: logged before the call and after its return; a panic of the code under test is recovered and
+// recorded (it would have killed the process)
+func (r *nfRun) sendOne(n *nfNode, g string, node, k int, m nfMsg, data, topic []byte, content obj) (pan string, took time.Duration) {
+	to := make([]uint16, len(m.To))
+	for i, d := range m.To {
+		to[i] = uint16(d)
+		if r.nodes[d].recv {
+			atomic.AddInt64(&r.expected, 1)
+		}
+	}
+	r.ev(obj{"e": "call", "g": g, "k": k, "from": node, "to": m.To, "m": content})
+	t0 := time.Now()
+	func() {
+		defer func() {
+			if x := recover(); x != nil {
+				st := string(debug.Stack())
+				pan = fmt.Sprint(x)
+				if !strings.Contains(st, "github.com/IBM/TSS/net.") {
+					nxFatal("panic outside the code under test: %v\n%s", x, st)
+				}
+			}
+		}()
+		n.parties.Send(uint8(m.Ty), topic, data, to...)
+	}()
+	r.ev(obj{"e": "ret", "g": g, "k": k, "panic": pan})
+	return pan, time.Since(t0)
+}
+
 func (r *nfRun) sender(pi int, p nfProg, wg *sync.WaitGroup) {
 	defer wg.Done()
 	n := r.nodes[p.Node]
 	g := fmt.Sprintf("%d.%d", p.Node, pi)
-	count := len(p.Msgs)
+	msgs := p.Msgs
+	base := 0
 	if p.Flood > 0 {
-		count = p.Flood
-	}
-	var fData, fTopic []byte
-	var fContent obj
-	for k := 0; k < count; k++ {
+		// flood: repeat Msgs[0] (one shared payload) until a call has waited for the enqueue timeout (or Flood calls were made),
+		// then go on with Msgs[1:]
 		m := p.Msgs[0]
-		if p.Flood == 0 {
-			m = p.Msgs[k]
+		mid := uint64(r.s.ID)<<40 | uint64(pi)<<24 | 0xFFFFFF
+		data, topic := nfPayload(mid, m.Size), nfTopic(mid, m.Topic)
+		content := nfContent(m.Ty, topic, data)
+		for k := 0; k < p.Flood; k++ {
+			pan, took := r.sendOne(n, g, p.Node, k, m, data, topic, content)
+			if pan != "" {
+				return // an unrecovered panic would have killed the process
+			}
+			if took > 5*time.Second {
+				break
+			}
 		}
+		msgs = p.Msgs[1:]
+		base = p.Flood
+	}
+	for j, m := range msgs {
 		if m.PauseUs > 0 {
 			time.Sleep(time.Duration(m.PauseUs) * time.Microsecond)
 		}
+		k := base + j
 		mid := uint64(r.s.ID)<<40 | uint64(pi)<<24 | uint64(k)
-		var data, topic []byte
-		var content obj
-		if p.Flood > 0 { // one shared payload
-			if fContent == nil {
-				mid = uint64(r.s.ID)<<40 | uint64(pi)<<24
-				fData, fTopic = nfPayload(mid, m.Size), nfTopic(mid, m.Topic)
-				fContent = nfContent(m.Ty, fTopic, fData)
-			}
-			data, topic, content = fData, fTopic, fContent
-		} else {
-			data, topic = nfPayload(mid, m.Size), nfTopic(mid, m.Topic)
-			content = nfContent(m.Ty, topic, data)
-		}
-		to := make([]uint16, len(m.To))
-		for i, d := range m.To {
-			to[i] = uint16(d)
-			if r.nodes[d].recv {
-				atomic.AddInt64(&r.expected, 1)
-			}
-		}
-		r.ev(obj{"e": "call", "g": g, "k": k, "from": p.Node, "to": m.To, "m": content})
-		pan := ""
-		t0 := time.Now()
-		func() {
-			defer func() {
-				if x := recover(); x != nil {
-					st := string(debug.Stack())
-					pan = fmt.Sprint(x)
-					if !strings.Contains(st, "github.com/IBM/TSS/net.") {
-						nxFatal("panic outside the code under test: %v\n%s", x, st)
-					}
-				}
-			}()
-			n.parties.Send(uint8(m.Ty), topic, data, to...)
-		}()
-		r.ev(obj{"e": "ret", "g": g, "k": k, "panic": pan})
-		if p.Flood > 0 && time.Since(t0) > 5*time.Second {
-			return // the queue is full and the call waited for the enqueue timeout: nothing more to learn from further calls
-		}
-		if pan != "" {
-			// an unrecovered panic would have killed the process; the deliveries this call did not enqueue are not expected
+		data, topic := nfPayload(mid, m.Size), nfTopic(mid, m.Topic)
+		if pan, _ := r.sendOne(n, g, p.Node, k, m, data, topic, nfContent(m.Ty, topic, data)); pan != "" {
 			return
+		}
+	}
+}
+
+// the Logger handed to the real senders of one node: SocketRemoteParties.Send reports a copy it gives up after the enqueue
+// timeout ("timeout sending to <id>"); that copy was not accepted for sending
+type nfLogger struct {
+	r    *nfRun
+	node int
+}
+
+func (nfLogger) DebugEnabled() bool            { return false }
+func (nfLogger) Debugf(string, ...interface{}) {}
+func (l nfLogger) Warnf(format string, a ...interface{}) {
+	var to int
+	if n, _ := fmt.Sscanf(format, "timeout sending to %d", &to); n == 1 {
+		l.r.ev(obj{"e": "drop", "from": l.node, "to": to})
+		if x, ok := l.r.nodes[to]; ok && x.recv {
+			atomic.AddInt64(&l.r.expected, -1)
 		}
 	}
 }
@@ -1175,7 +1206,7 @@ func nfExec(mat *nxMaterial, out *nxOut, s nfScenario) {
 				continue
 			}
 			n.parties[j] = comm.NewSocketRemoteParty(comm.PartyConnectionConfig{
-				AuthFunc: nxHonestAuth(n.ident, nxDom(s.Dom)), Domain: nxDom(s.Dom), Id: j, Endpoint: r.nodes[j].addr, TlsCAs: mat.pool}, nxLogger{})
+				AuthFunc: nxHonestAuth(n.ident, nxDom(s.Dom)), Domain: nxDom(s.Dom), Id: j, Endpoint: r.nodes[j].addr, TlsCAs: mat.pool}, nfLogger{r: r, node: i})
 		}
 	}
 	inconclusive := ""
